@@ -366,7 +366,7 @@ func genEPCase(t *rapid.T) EPCase {
 func TestC03_Random(t *testing.T) {
 	rec := evid.New("C03", "c03_random", "rapid: valid encodings (value trees, nesting chains, field sequences, Base-like structs, message envelopes, TTHeader-like frames) hit by one malformation operator (every cut point, structural byte -> boundary byte, size -> hostile constant, splice, bit flip, append) or uniform bytes, with any requested type byte -128..127; each case runs through 29 entry points x 3 placements (guard page after, guard page before, heap cap==len) behind recover with faults turned into panics; non-trivial = non-empty input on which the reference parsed >= 1 structural field or which is a strict mutation")
 	defer rec.Flush()
-	runRapid(t, rec, "c03_entry_points", evid.Pick(40000, 60000), genEPCase, func(c EPCase, cv *cov) *evid.Violation { return checkEntryPointsRec(c, cv, rec) })
+	runRapid(t, rec, "c03_entry_points", evid.Pick(40000, 200000), genEPCase, func(c EPCase, cv *cov) *evid.Violation { return checkEntryPointsRec(c, cv, rec) })
 }
 
 func TestC03_Exhaustive(t *testing.T) {
